@@ -37,7 +37,7 @@ def _latent_tod(ts: datetime, tod: Time) -> Time:
         dm += relativedelta(days=1)
     return Time(
         year=dm.year, month=dm.month, day=dm.day, hour=dm.hour, minute=dm.minute
-    )
+    ).update_span(tod)
 
 
 def _latent_time_interval(ts: datetime, ti: Interval) -> Interval:
@@ -62,4 +62,4 @@ def _latent_time_interval(ts: datetime, ti: Interval) -> Interval:
             hour=dm_to.hour,
             minute=dm_to.minute,
         ),
-    )
+    ).update_span(ti)
